@@ -159,7 +159,7 @@ static void body_write_zlib(Tape &t, Ctx &c) {
 }
 
 // ---------------------------------------------------------------------------------------------------- readers
-struct ReadCfg { int xbuf, nbuf, cbuf; }; // 0 NULL, 1 exact, 2 undersized (grow protocol)
+struct ReadCfg { int xbuf, nbuf, cbuf; }; // 0 NULL, 1 exact, 2 undersized (grow protocol), 3 generous (64 KiB and more: the *_buf_len fields are 32 bits wide)
 
 static void body_read_gzip(Tape &t, Ctx &c) {
 	refhdr::Gzip g;
@@ -191,7 +191,7 @@ static void body_read_gzip(Tape &t, Ctx &c) {
 	// deflate bytes follow the header
 	std::vector<uint8_t> in = hdr;
 	for (int i = 0; i < 12; i++) in.push_back((uint8_t) (0x30 + i));
-	ReadCfg rc{(int) t.range(0, 2), (int) t.range(0, 2), (int) t.range(0, 2)};
+	ReadCfg rc{(int) t.range(0, 3), (int) t.range(0, 3), (int) t.range(0, 3)};
 	int split_mode = (int) t.range(0, 3); // 0 one piece, 1 single split, 2 one byte at a time, 3 random pieces
 	size_t split = (size_t) t.range(0, hlen);
 	uint64_t sseed = t.bits64();
@@ -206,9 +206,10 @@ static void body_read_gzip(Tape &t, Ctx &c) {
 	std::vector<uint8_t> xstore, nstore, cstore;
 	guard::Buf xb, nb2, cb2;
 	auto setbuf = [&](guard::Buf &b, std::vector<uint8_t> &store, size_t len, const char *nm) { b = guard::alloc(len, guard::END, nm); if (len && !store.empty()) memcpy(b.p, store.data(), std::min(len, store.size())); };
-	size_t xl = rc.xbuf == 0 ? 0 : rc.xbuf == 1 ? g.extra.size() : g.extra.size() / 2;
-	size_t nl = rc.nbuf == 0 ? 0 : rc.nbuf == 1 ? g.name.size() + 1 : (g.name.size() + 1) / 2;
-	size_t cl = rc.cbuf == 0 ? 0 : rc.cbuf == 1 ? g.comment.size() + 1 : (g.comment.size() + 1) / 3;
+	static const size_t GEN[] = {65536, 65537, 70000, 131072, 65536 + 300};
+	size_t xl = rc.xbuf == 0 ? 0 : rc.xbuf == 1 ? g.extra.size() : rc.xbuf == 2 ? g.extra.size() / 2 : std::max(GEN[sseed % 5], g.extra.size());
+	size_t nl = rc.nbuf == 0 ? 0 : rc.nbuf == 1 ? g.name.size() + 1 : rc.nbuf == 2 ? (g.name.size() + 1) / 2 : GEN[(sseed >> 8) % 5];
+	size_t cl = rc.cbuf == 0 ? 0 : rc.cbuf == 1 ? g.comment.size() + 1 : rc.cbuf == 2 ? (g.comment.size() + 1) / 3 : GEN[(sseed >> 16) % 5];
 	if (rc.xbuf) { setbuf(xb, xstore, xl, "extra buffer"); h.extra = xb.p; h.extra_buf_len = (uint32_t) xl; }
 	if (rc.nbuf) { setbuf(nb2, nstore, nl, "name buffer"); h.name = (char *) nb2.p; h.name_buf_len = (uint32_t) nl; }
 	if (rc.cbuf) { setbuf(cb2, cstore, cl, "comment buffer"); h.comment = (char *) cb2.p; h.comment_buf_len = (uint32_t) cl; }
@@ -426,7 +427,7 @@ int main(int argc, char **argv) {
 	std::vector<Sub> subs = {
 		{"write_gzip", body_write_gzip, 32, 4, nullptr, "generated field values and optional-field subsets (extra up to 65535 bytes) x output sizes around the required size: bytes == RFC 1952 layout from an independent writer, zlib inflateGetHeader reads the same values, too-small output -> required size and untouched stream; non-trivial: >= 2 optional fields or avail_out within 2 of the need"},
 		{"write_zlib", body_write_zlib, 16, 2, nullptr, "info 0..15, level, dict flag/id x output sizes 0..8: bytes == RFC 1950 layout (FCHECK, DICTID most significant byte first), zlib agrees (Z_NEED_DICT + id)"},
-		{"read_gzip", body_read_gzip, 40, 6, nullptr, "headers from the reference writer and from zlib's deflateSetHeader read back with isal_read_gzip_header: one piece / every single split / one byte at a time / random pieces, caller buffers NULL / exact / undersized with the grow-and-call-again protocol, corrupted HCRC rejected; fields equal, stops at the first deflate byte; non-trivial: >= 2 optional fields, a split or an overflow-resume"},
+		{"read_gzip", body_read_gzip, 40, 6, nullptr, "headers from the reference writer and from zlib's deflateSetHeader read back with isal_read_gzip_header: one piece / every single split / one byte at a time / random pieces, caller buffers NULL / exact / undersized with the grow-and-call-again protocol / 64 KiB and larger, corrupted HCRC rejected; fields equal, stops at the first deflate byte; non-trivial: >= 2 optional fields, a split or an overflow-resume"},
 		{"read_zlib", body_read_zlib, 24, 3, nullptr, "zlib headers (incl. real zlib streams with preset dictionary) read with isal_read_zlib_header under every split: fields, dict id byte order, FCHECK and CM rejected"},
 		{"read_arbitrary", body_read_arbitrary, 16, 3, nullptr, "arbitrary bytes (half with a plausible magic) as gzip/zlib headers: documented status, no out-of-bounds access on guard-paged input and caller buffers"},
 	};
